@@ -145,4 +145,46 @@ def indexedId (idlen : Nat) (a : Name) (id : Nat) (b : Name) : List Char :=
 def multVarId (idlen : Nat) (idhash : Bool) (a : Name) (id : Nat) (b : Name) : List Char :=
   if isGlobalKind a then globalId idlen idhash a b else indexedId idlen a id b
 
+/-! ## module initialiser names `INIT__<n>_<module>`
+
+Every place of genc.c that needs the name of a unit's initialisation function builds it with
+`gc0MultVarId(gcFiInitModulePrefix, n, module)`; the definitions below follow the call sites one
+by one (the module string is the file id passed to `genC`, or, for an imported unit, the id of
+its `Init`-protocol global = `gen0InitialiserName(lib)` = the library name itself). -/
+
+/-- `gcFiInitModulePrefix` -/
+def initPrefix : Name := ['I', 'N', 'I', 'T', '_']
+
+/-- `gc0ModuleInitFun(modName, n)` -/
+def moduleInitFun (idlen : Nat) (mod : Name) (n : Nat) : List Char :=
+  multVarId idlen true initPrefix n mod
+
+/-- `gc0GenModuleInitFun(name, main, n)`: the function it defines (`modNum = main ? 0 : n`) -/
+def siteDefinition (idlen : Nat) (name : Name) (main : Bool) (n : Nat) : List Char :=
+  moduleInitFun idlen name (if main then 0 else n)
+
+/-- same function, non-main branch: the call queued for the main unit (`gcvInitFunCalls1CC`) -/
+def siteBrotherCall (idlen : Nat) (name : Name) (n : Nat) : List Char :=
+  moduleInitFun idlen name n
+
+/-- `gc0DeclModuleInitFun(name, i)`: `extern int INIT__i_name();` in the main unit -/
+def siteBrotherDecl (idlen : Nat) (name : Name) (i : Nat) : List Char :=
+  moduleInitFun idlen name i
+
+/-- `genAXLmainC(name)`: `extern int INIT__0_name();` in the generated `main` file -/
+def siteMainDecl (idlen : Nat) (name : Name) : List Char :=
+  multVarId idlen true initPrefix 0 name
+
+/-- `gc0MainDef(name)`: the call in `main` -/
+def siteMainCall (idlen : Nat) (name : Name) : List Char :=
+  multVarId idlen true initPrefix 0 name
+
+/-- `gc0GloIdDecl`, imported `Init`-protocol global `str`: declaration and call -/
+def siteImport (idlen : Nat) (str : Name) : List Char :=
+  multVarId idlen true initPrefix 0 str
+
+/-- `gc0ExportInit(name, …)`: the call placed in front of an exported function's body -/
+def siteExportInit (idlen : Nat) (name : Name) : List Char :=
+  multVarId idlen true initPrefix 0 name
+
 end AldorVerif.Mangle
